@@ -134,6 +134,21 @@ class Peer(memnet.ScriptPeer):
                 # a server that talks first: frames right behind the 101, each in a segment of its own, before the client has
                 # installed its websocket reader
                 def send_early(k: int) -> None:
+                    if k == 0 and w.cfg.get("early_huge"):
+                        # the first frame is one large message (400 KiB) arriving in 100 KiB reads, most of it before
+                        # the reader is installed, none of it a complete message until the last read
+                        n = 400 * 1024
+                        frame = bytes([0x80 | OP_TEXT, 127]) + n.to_bytes(8, "big") + b"h" * n
+
+                        def piece(j: int) -> None:
+                            if j * 102400 < len(frame):
+                                self.send(frame[j * 102400:(j + 1) * 102400])
+                                w.loop.call_soon(w.loop.call_soon, piece, j + 1)
+                            else:
+                                send_early(1)
+
+                        piece(0)
+                        return
                     if k < w.cfg.get("early_frames", 0):
                         self.send_frame(OP_TEXT, b"early-%d" % k)
                         w.loop.call_soon(w.loop.call_soon, send_early, k + 1)  # two iterations apart: separate reads on the other side
@@ -259,7 +274,15 @@ class World:
                 from aiohttp import WSMsgType
 
                 for k in range(cfg.get("early_frames", 0)):
-                    m = await asyncio.wait_for(self.ws.receive(), 5)
+                    try:
+                        m = await asyncio.wait_for(self.ws.receive(), 5)
+                    except asyncio.TimeoutError:
+                        raise Violation("early-frame-lost", f"the peer sent {cfg['early_frames']} messages right behind the 101 response "
+                                        f"({'the first one 400 KiB in four reads' if cfg.get('early_huge') else 'small ones'}); receive() #{k} got nothing within 5 s")
+                    if k == 0 and cfg.get("early_huge"):
+                        if m.type != WSMsgType.TEXT or m.data != "h" * (400 * 1024):
+                            raise Violation("early-frame-lost", f"the peer sent a 400 KiB text message right behind the 101 response; receive() returned {str(m)[:120]}")
+                        continue
                     if m.type != WSMsgType.TEXT or m.data != "early-%d" % k:
                         raise Violation("early-frame-lost", f"the peer sent {cfg['early_frames']} text frames right behind the 101 response; receive() #{k} returned {m!r}")
                 if cfg.get("unasked_extension"):
@@ -708,6 +731,7 @@ CONFIGS = [
     base_cfg("server", write_stall=True),
     base_cfg("client", recv_timeout=3.0, legacy_receive_timeout=True),
     base_cfg("client", early_frames=3),
+    base_cfg("client", early_frames=3, early_huge=True),
     base_cfg("server", early_big=5, prepare_delay=40, read_bufsize=200_000),
     base_cfg("server", early_big=3, prepare_delay=10),
     base_cfg("client", unasked_extension=True),
